@@ -60,6 +60,11 @@ class MTable:
     # (None: there is no such summarize); used to classify C08 findings, not to judge
     ung: frozenset | None = None
     full_join: bool = False  # the pipeline contains a full join (generator-side restriction, see g_union)
+    # a re-rooted copy (alias / collect(keep_col_refs=False) / clone) and what is derived from it by
+    # select / drop / rename / filter / arrange is a *view* of `view_src`: view_of maps each of its
+    # tokens to the token of view_src whose data it carries (used by transfer_col_references)
+    view_src: str | None = None
+    view_of: dict | None = None
 
     def names(self):
         return [n for n, _ in self.visible]
@@ -89,6 +94,9 @@ class MTable:
         m.origins = self.origins | {new_id}
         m.verbs = self.verbs + (verb,)
         m.same_as = None
+        if verb not in ("select", "rename", "filter", "arrange"):
+            m.view_src = None
+            m.view_of = None
         for k, v in kw.items():
             setattr(m, k, v)
         return m
@@ -325,6 +333,8 @@ class Model:
             n_alias=m.n_alias + 1,
             order_fixed=False,
             same_as=m.id,
+            view_src=m.id,
+            view_of={v: k for k, v in mp.items()},
             # an alias alone does not start a new SELECT: the summarize level persists
             ung=None if m.ung is None else frozenset(mp[t] for t in m.ung if t in mp),
         )
@@ -356,6 +366,8 @@ class Model:
             padded=frozenset(lin_map.get(p, p) for p in m.padded),
             rowid=tuple(mp[t] for t in m.rowid) if (m.rowid is not None and all(t in mp for t in m.rowid)) else None,
             same_as=m.id,
+            view_src=m.id,
+            view_of={v: k for k, v in mp.items()},
         )
         res.origins = frozenset({new_id})
         return res
@@ -373,6 +385,8 @@ class Model:
             padded=frozenset(lin_map.get(p, p) for p in m.padded),
             rowid=None if m.rowid is None else tuple(mp[t] for t in m.rowid),
             same_as=m.id,
+            view_src=m.id,
+            view_of={v: k for k, v in mp.items()},
         )
         res.origins = frozenset({new_id})
         return res
@@ -381,17 +395,20 @@ class Model:
         """transfer_col_references(new, src): data of `new`, references of `src` (by name)."""
         vis = [(n, src.tok_of_name(n)) for n, _ in new.visible]
         vt = {t for _, t in vis}
-        same = new.same_as == src.id
+        view = new.view_of if new.view_src == src.id else None
+        same = view is not None
+        # the reference of `src` found under the name n now denotes the data of new's column n: it
+        # can be decoded as src's token only if that column is a copy of exactly that token
+        faithful = {ts for (_, tn), (_, ts) in zip(new.visible, vis, strict=True) if same and view.get(tn) == ts and tn not in new.opaque}
         res = new.child(
             new_id,
             "transfer",
             visible=vis,
             scope=[t for _, t in vis],
             grouping=[src.tok_of_name(new.name_of_tok(t)) for t in new.grouping],
-            # data is that of `new`: decodable via src's tokens only if `new` reproduces `src`
-            opaque=frozenset(t for t in src.opaque if t in vt) if same else frozenset(vt),
+            opaque=frozenset(t for t in vt if t in src.opaque or t not in faithful),
             padded=src.padded if same else frozenset(),
-            rowid=(src.rowid if (same and src.rowid is not None and all(t in vt for t in src.rowid)) else None),
+            rowid=(src.rowid if (same and src.rowid is not None and all(t in faithful for t in src.rowid)) else None),
         )
         # carries the column identities of `src`: derived from it for the purpose of join validation
         res.origins = frozenset({new_id}) | src.origins
